@@ -145,9 +145,17 @@ impl BuildInMessage for DName {
         &self,
         contents: &mut [u8],
         start: usize,
-        compressor: &mut NameCompressor,
+        _compressor: &mut NameCompressor,
     ) -> Result<usize, TruncationError> {
-        self.name.build_in_message(contents, start, compressor)
+        // The target of a DNAME record must not be compressed (RFC 6672,
+        // section 2.5), and it is parsed without decompression.
+        let bytes = self.name.as_bytes();
+        let end = start + bytes.len();
+        contents
+            .get_mut(start..end)
+            .ok_or(TruncationError)?
+            .copy_from_slice(bytes);
+        Ok(end)
     }
 }
 
